@@ -241,6 +241,21 @@ inductive Val
   deriving Repr, Inhabited
 
 mutual
+/-- create the children of a table (in field order) and collect the `table_add*` calls of its frame -/
+partial def buildFields (s : BS) (fields : List (Nat × Val)) : BS × List (Nat × FieldVal) :=
+  fields.foldl (fun (acc : BS × List (Nat × FieldVal)) f =>
+      match f.2 with
+      | .inl size align bytes => (acc.1, acc.2 ++ [(f.1, FieldVal.inl size align bytes)])
+      | .union t v =>
+        let (s, r) := buildVal acc.1 v
+        (s, acc.2 ++ (if r = 0 then [] else [(f.1, FieldVal.off r)]) ++ [(f.1 - 1, FieldVal.inl 1 1 [t % 256])])
+      | .uvec items =>
+        let (s, refs) := items.foldl (fun (a : BS × List Int) it => let (s, r) := buildVal a.1 it.2; (s, a.2 ++ [r])) (acc.1, [])
+        let (s, vr) := createOffsetVector s refs
+        let (s, tr) := createVector s (items.map (fun it => it.1 % 256)) items.length 1
+        (s, acc.2 ++ [(f.1 - 1, FieldVal.off tr), (f.1, FieldVal.off vr)])
+      | v => let (s, r) := buildVal acc.1 v; (s, acc.2 ++ [(f.1, FieldVal.off r)])) (s, [])
+
 /-- create the object for `v` (children first, in field / element order); returns its reference -/
 partial def buildVal (s : BS) (v : Val) : BS × Int :=
   match v with
@@ -258,18 +273,7 @@ partial def buildVal (s : BS) (v : Val) : BS × Int :=
   | .uvec _ => (s, 0)
   | .embed withSize blockAlign align b => let (s, r) := embedBuffer s b align blockAlign withSize; (remember s r, r)
   | .tab fields =>
-    let (s, fvs) := fields.foldl (fun (acc : BS × List (Nat × FieldVal)) f =>
-      match f.2 with
-      | .inl size align bytes => (acc.1, acc.2 ++ [(f.1, FieldVal.inl size align bytes)])
-      | .union t v =>
-        let (s, r) := buildVal acc.1 v
-        (s, acc.2 ++ (if r = 0 then [] else [(f.1, FieldVal.off r)]) ++ [(f.1 - 1, FieldVal.inl 1 1 [t % 256])])
-      | .uvec items =>
-        let (s, refs) := items.foldl (fun (a : BS × List Int) it => let (s, r) := buildVal a.1 it.2; (s, a.2 ++ [r])) (acc.1, [])
-        let (s, vr) := createOffsetVector s refs
-        let (s, tr) := createVector s (items.map (fun it => it.1 % 256)) items.length 1
-        (s, acc.2 ++ [(f.1 - 1, FieldVal.off tr), (f.1, FieldVal.off vr)])
-      | v => let (s, r) := buildVal acc.1 v; (s, acc.2 ++ [(f.1, FieldVal.off r)])) (s, [])
+    let (s, fvs) := buildFields s fields
     let (s, r) := endTable s fvs
     (remember s r, r)
   | .nested ident withSize blockAlign root =>
@@ -284,6 +288,8 @@ structure Config where
   withSize : Bool := false
   blockAlign : Nat := 0
   clustering : Bool := true
+  /-- the root table's children are created before `start_buffer` (allowed at the top level: the `X_create_as_root(B, child, ..)` pattern) -/
+  pre : Bool := false
   deriving Repr
 
 /-- a builder after `flatcc_builder_init` -/
@@ -296,11 +302,25 @@ def resetBS (s : BS) : BS :=
            withSize := false, vtCache := [], refs := #[], emits := [] }
 
 /-- `start_buffer … end_buffer` around a root object on a builder in state `s` -/
+def preFields (cfg : Config) (root : Val) : Option (List (Nat × Val)) :=
+  match cfg.pre, root with
+  | true, .tab fields => some fields
+  | _, _ => none
+
 def buildFrom (s : BS) (cfg : Config) (root : Val) : List Nat × Nat × List (Int × Nat) :=
-  let s0 := startBuffer { s with clustering := cfg.clustering } cfg.blockAlign cfg.withSize
-  let (s1, rootRef) := buildVal s0 root
-  let (s2, _) := endBuffer s s1 cfg.ident rootRef
-  (s2.front ++ s2.back, s2.minAlign, s2.emits.reverse)
+  let sc := { s with clustering := cfg.clustering }
+  match preFields cfg root with
+  | some fields =>
+    let (sp, fvs) := buildFields sc fields
+    let s0 := startBuffer sp cfg.blockAlign cfg.withSize
+    let (s1, rootRef) := endTable s0 fvs
+    let (s2, _) := endBuffer sp (remember s1 rootRef) cfg.ident rootRef
+    (s2.front ++ s2.back, s2.minAlign, s2.emits.reverse)
+  | none =>
+    let s0 := startBuffer sc cfg.blockAlign cfg.withSize
+    let (s1, rootRef) := buildVal s0 root
+    let (s2, _) := endBuffer s s1 cfg.ident rootRef
+    (s2.front ++ s2.back, s2.minAlign, s2.emits.reverse)
 
 /-- a build on a freshly initialised builder: the finished bytes in address order, the reported alignment, the emit calls -/
 def build (cfg : Config) (root : Val) : List Nat × Nat × List (Int × Nat) := buildFrom initBS cfg root
